@@ -292,7 +292,7 @@ func sigOf(d string, f gen.Features) string {
 func check(rt interface{ Fatalf(string, ...any) }, rec *ev.Rec, gp *gen.GenProgram, kind string) {
 	p := prog.Prepare(gp)
 	rec.Case()
-	want, rerr := prog.RunRefErr(p, 400000)
+	want, rerr := prog.RunRefErr(p, refBudget(gp))
 	if rerr != nil {
 		if errors.Is(rerr, ref.ErrValuePanic) {
 			rec.Exclude("value-op-go-panic(C15)")
@@ -342,6 +342,9 @@ func check(rt interface{ Fatalf(string, ...any) }, rec *ev.Rec, gp *gen.GenProgr
 			return
 		}
 	}
+	if gp.Features["repeated"] > 0 && len(want.Log) >= 1000 {
+		rec.Class(kind + ":ran-many-iterations")
+	}
 	f := gp.Features
 	for _, k := range []string{"history", "nested-try", "try-inside-finally", "exit-in-finally", "loop-inside-try", "call", "exit-return", "exit-break", "exit-continue", "exit-throw", "exit-div0"} {
 		if f[k] > 0 {
@@ -357,6 +360,13 @@ func check(rt interface{ Fatalf(string, ...any) }, rec *ev.Rec, gp *gen.GenProgr
 		rec.Class(kind + ":nontrivial")
 	}
 	rec.Sample(map[string]any{"src": p.Src, "outcome": want.String()})
+}
+
+func refBudget(gp *gen.GenProgram) int {
+	if gp.Features["repeated"] > 0 {
+		return 40_000_000
+	}
+	return 400000
 }
 
 func TestCheck(t *testing.T) {
@@ -379,6 +389,7 @@ func TestCheck(t *testing.T) {
 		gp := generate(rt, false)
 		check(rt, rec, gp, "grammar")
 	})
+	ev.RapidCheck(t, "try-grammar-repeated", ev.N(400, 8000), 3, func(rt *rapid.T) { repeatProp(rt, rec) })
 	general := gen.Config{MaxStmts: 26, MaxDepth: 3, MaxFnDepth: 3, MaxBlock: 4,
 		Closures: true, Calls: true, Log: true, Try: true, Failing: true, Destruct: true, Consts: true, Recursion: true, Params: true}
 	ev.RapidCheck(t, "general-with-try", ev.N(1500, 30000), 2, func(rt *rapid.T) {
